@@ -8,6 +8,6 @@ git diff -- tapescript > $D/patch.diff
 cp demo.py $D/demo.py; cp notes.txt $D/notes.txt 2>/dev/null
 echo "== suite with change:"; /venv/bin/python -m pytest -q -p no:cacheprovider --timeout=900 2>&1 | tail -1
 echo "== demo with change:"; /venv/bin/python demo.py > /tmp/demo_with.txt 2>&1; echo "exit=$?"; head -3 /tmp/demo_with.txt
-git stash -q
+git apply -R $D/patch.diff   # not git stash: the stash is shared between the worktrees of one repository
 echo "== demo without change:"; /venv/bin/python demo.py > /tmp/demo_without.txt 2>&1; echo "exit=$?"; head -2 /tmp/demo_without.txt
-git stash pop -q
+git apply $D/patch.diff
